@@ -447,7 +447,7 @@ def densify(coords: CoordList, resolution: float) -> CoordList:
     d2 = resolution**2
 
     def short_enough(p1, p2):
-        return (p1[0] ** 2 + p2[0] ** 2) < d2
+        return ((p1[0] - p2[0]) ** 2 + (p1[1] - p2[1]) ** 2) < d2
 
     new_coords = [coords[0]]
     for p1, p2 in zip(coords[:-1], coords[1:]):
